@@ -166,7 +166,8 @@ theorem tls12_connection_exact (H : Crypto.Prims) (P : Prims) (L : SealLaws P) (
   have hready : Ready cls (KeySchedule.macSuite H a.ks.mac).outLen (legacySnd k)
       (Session.handleRecord (Pipeline.ops H P kl) false (Session.handleRecord (Pipeline.ops H P kl) false Session.St.init ⟨t.chRecord, c0⟩ false)
         ⟨t.shRecord, c1⟩ true) :=
-    ⟨g3.1, ⟨v, g1, ⟨fun h => absurd h hvne, fun h => by rw [h13] at h; cases h⟩⟩, dd, g3.2, hR⟩
+    ⟨⟨g3.1, ⟨v, g1, ⟨fun h => absurd h hvne, fun h => by rw [h13] at h; cases h⟩⟩, dd, g3.2, hR⟩,
+      hello_pair_bufs _ false Session.St.init h0 t.rvC t.rvS hrc hrs t.ch hch t.sh c0 c1⟩
   -- everything after the ServerHello: any interleaving
   have hrun : Session.run (Pipeline.ops H P kl) false Session.St.init
       ((⟨t.chRecord, c0⟩, false) :: (noise ++ (⟨t.shRecord, c1⟩, true) :: M'))
@@ -299,7 +300,8 @@ theorem tls13_connection_exact (H : Crypto.Prims) (P : Prims) (L : SealLaws P) (
       (Session.handleRecord (Pipeline.ops H P kl) false
         (Session.handleRecord (Pipeline.ops H P kl) false Session.St.init ⟨t.chRecord, r0.carriers⟩ false)
         ⟨t.shRecord, r1.carriers⟩ true) :=
-    ⟨g3.1, ⟨.tls13, g1, ⟨fun _ => h13, fun _ => rfl⟩⟩, dd, g3.2, hR⟩
+    ⟨⟨g3.1, ⟨.tls13, g1, ⟨fun _ => h13, fun _ => rfl⟩⟩, dd, g3.2, hR⟩,
+      hello_pair_bufs _ false Session.St.init h0 t.rvC t.rvS hrc hrs t.ch hch t.sh r0.carriers r1.carriers⟩
   rw [hr0, hr1]
   have hmerge := run_merge13 H P L kl cls h13 _ t.ver hv M'
     ⟨SDir.init chk chiv cak caiv, SDir.init shk shiv sak saiv⟩ _
@@ -793,10 +795,11 @@ def fragRun (cut : Nat) : Option (List (Option Bytes × Bool × Bool)) :=
   | .error _ => none
 -- whole messages per record (the hypothesis inside `DirEv.hs13`): exact
 example : fragRun 0 = some [(some k16, true, true)] := by decide +kernel
--- the same flight cut inside the Certificate (the second record starts 00 ff ff ff …): the loop of
--- `handle_decrypted_tls_13_handshake_record` restarts at offset 0, never sees the Finished, `update_keys` is not
--- called and the server's application data is LOST
-example : fragRun 12 = some [] := by decide +kernel
+-- the same flight cut inside the Certificate (the second record starts 00 ff ff ff …): BEFORE the repair of
+-- `handle_decrypted_tls_13_handshake_record` (per-record walk, `Session.Legacy.hs13Loop`) the Finished was missed and
+-- the server's application data lost (`Ex2.legacy_tls13_fragmented_counterexample`); with the per-direction buffer it
+-- is exported
+example : fragRun 12 = some [(some k16, true, true)] := by decide +kernel
 
 -- … consistent with evaluating the model on the same packets
 example : view (Pipeline.connOut hashes Cipher.Toy.prims infoCap connCap kl0)
